@@ -1,6 +1,8 @@
 """C40 — authentication accepts exactly the valid credentials.
 Spec: spec/Auth.tla (account matching as GetUser, decision per matched account with the password
-abstracted to a label, malformed proofs a distinguished kind that must be rejected).  TLC enumerates
+abstracted to a label; what the bytes of an auth response ARE is their abstract class under the
+negotiated plugin: valid proof of a labelled password / empty / malformed; malformed is rejected, empty
+opens only accounts without password).  TLC enumerates
 account sets x attempts and checks the property-level invariants; the binding runs the attempts
 against the real TCP listener (server in a child process) and Trace_Auth.tla judges every outcome."""
 import concurrent.futures, glob, json, os, random, time
@@ -9,9 +11,9 @@ import lib
 META = {
     "property_id": "C40",
     "level": "model_checking",
-    "technique": "TLA+ spec Auth.tla: TLC enumerates every (account set, connection attempt) of a bounded vocabulary and checks the declarative acceptance property against the specification's Authenticate; sampled cases are executed against the real server (engine with the mysql privilege database behind server.NewServer on TCP, in a child process) with go-sql-driver (well-formed logins, with and without TLS) and a raw-socket client (malformed mysql_native_password responses of every length); outcomes validated by TLC against Trace_Auth.tla",
-    "text": "Accounts: user alice or anonymous, host localhost / 127.0.0.1 / % / 10.% / 127.0.0.%, password or none, mysql_native_password or caching_sha2_password, unlocked / created WITH ACCOUNT LOCK / locked in mysql.user; sets of one or two accounts. Attempts from 127.0.0.1 as alice or bob: right, wrong and empty password with and without TLS, and raw handshakes answering with truncated (1..19 bytes), oversized (21..40) and garbage responses. For every attempt the connection outcome (OK / ERR packet / connection dropped / server crash) and SELECT CURRENT_USER() are recorded and must be what Authenticate allows: accepted exactly when an unlocked matching account's password is known under a usable plugin, as that account.",
-    "note": "The SHA arithmetic is outside TLA+ (password = label); which of several matching accounts of the same tier GetUser takes is left open (documented TODO), so an outcome is accepted when it is right for one of them. caching_sha2_password is only usable over TLS here (no RSA key exchange in the server) and is specified so. The client always comes from 127.0.0.1. A dropped connection (the vitess listener recovers a panic of the connection goroutine) or a dead server is not a rejection the specification knows. Trusted: TLC, go-sql-driver, the 120-line raw handshake client in harness/cmd/priv/auth.go.",
+    "technique": "TLA+ spec Auth.tla: TLC enumerates every (account set, connection attempt) of a bounded vocabulary and checks the declarative acceptance property against the specification's Authenticate; sampled cases are executed against the real server (engine with the mysql privilege database behind server.NewServer on TCP, in a child process) with go-sql-driver (well-formed logins, with and without TLS) and a raw-socket client (hand-made auth responses: truncated, oversized, garbage, the valid 20-byte scramble on a handshake salt chosen so that it ends or starts with 0x00, the valid scramble with NUL bytes appended or prepended, all-NUL responses, the empty response; mysql_native_password in the clear, caching_sha2_password over TLS); outcomes validated by TLC against Trace_Auth.tla",
+    "text": "Accounts: user alice or anonymous, host localhost / 127.0.0.1 / % / 10.% / 127.0.0.%, password or none, mysql_native_password or caching_sha2_password, unlocked / created WITH ACCOUNT LOCK / locked in mysql.user; sets of one or two accounts. Attempts from 127.0.0.1 as alice or bob: right, wrong and empty password with and without TLS, and raw handshakes answering with truncated (1..19 bytes), oversized (21..40) and garbage responses, with exactly the correct scramble for the password on a salt that makes its last (first) byte 0x00 (the driver reconnects until the server draws such a salt, about 256 handshakes), with the correct scramble followed or preceded by NUL bytes, with all-NUL responses of 1, 19, 20, 21 and 32 bytes and with the empty response, against accounts with and without password; over TLS the raw client announces caching_sha2_password and sends the empty response or a lone NUL. The specification decides from the class of the response under the account's plugin: mysql_native_password knows the empty response (no password presented) and the 20-byte scramble, everything else is malformed; for caching_sha2_password the empty response and a lone 0x00 both say \"no password\". For every attempt the connection outcome (OK / ERR packet / connection dropped / server crash) and SELECT CURRENT_USER() are recorded and must be what Authenticate allows: accepted exactly when an unlocked matching account's password is known under a usable plugin, as that account.",
+    "note": "The SHA arithmetic is outside TLA+ (password = label; the driver computes the scrambles and searches the salts, the specification only knows 'the valid proof for pw1'); which of several matching accounts of the same tier GetUser takes is left open (documented TODO), so an outcome is accepted when it is right for one of them. caching_sha2_password is only usable over TLS here (no RSA key exchange in the server) and is specified so. The client always comes from 127.0.0.1. A dropped connection (the vitess listener recovers a panic of the connection goroutine) or a dead server is not a rejection the specification knows. In the quick tier the chosen-salt attempts are made for every second sampled account set. A raw client that is asked for the caching_sha2 full authentication round trip is not modelled (the TLS raw client is only generated with the two responses decided at once). Trusted: TLC, go-sql-driver, the 200-line raw handshake client in harness/cmd/priv/auth.go.",
     "design_ref": "§7 C40, §4.2",
 }
 
@@ -208,7 +210,7 @@ def check(tier):
                         {"accts": ends[len(ends) // 2]["accts"], "att": ends[len(ends) // 2]["att"], "out": ends[len(ends) // 2]["out"]}],
             "evaluations": len(sts),
             "distinct_nontrivial": pattern,
-            "rule": "evaluations = connection attempts made against the real listener and judged by TLC; non-trivial = the attempt is matched through an account whose host is not the literal 'localhost' (127.0.0.1, %%, 127.0.0.%%: alias or pattern matching decides); %d attempts the specification accepts, %d with more than one candidate account" % (accepts, multi),
+            "rule": "evaluations = connection attempts made against the real listener and judged by TLC; non-trivial = the attempt is matched through an account whose host is not the literal 'localhost' (127.0.0.1, %%, 127.0.0.%%: alias or pattern matching decides); %d attempts the specification accepts, %d with more than one candidate account; hand-made responses by kind under by_proof_kind" % (accepts, multi),
             "enumeration": {"config": mc_cfg, "account_sets": len(sets), "attempts_per_set": len(atts), "tlc_wall_s": round(r.wall, 1)},
             "sampled_account_sets": len(pick),
             "by_proof_kind": by_kind,
